@@ -47,3 +47,27 @@ def c19(ctx, rep):
     optable.rule_version_mode(ctx, rep)
     optable.rule_field_versions(ctx, rep)
     optable.rule_cost(ctx, rep)
+
+
+from .rules import cmptables  # noqa: E402
+
+
+@prop("C06", "Decides the structural clauses of C06: (T-CMP(int)) the complete comparison table of the GroupSize/GroupIndex "
+             "analysis - 6 operators x both operand orders x c in 0..18, plus non-constant/named/unknown comparands - equals "
+             "{v in U | comparison}, complement in U; universes, null set, set algebra; (T-STORE(int)) index<size coupling and "
+             "defaults. Extracted by abstract evaluation of _get_asserted_single and its callees (incl. tealer's own stack "
+             "reconstruction). Not decided: soundness/exactness of the fixpoint over all programs.")
+def c06(ctx, rep):
+    cmptables.rule_int_tables(ctx, rep)
+    cmptables.rule_set_algebra(ctx, rep, which=("int_fields",))
+    cmptables.rule_int_store(ctx, rep)
+
+
+@prop("C09", "Decides the structural clauses of C09: (T-CMP(fee)) the complete fee comparison table - 6 operators x both operand "
+             "orders, symbolic c and boundary constants, unknown comparands - equals the implied bound; (T-LATTICE(fee)) the "
+             "FeeValue chain with 'unknown' at 272000, constants; (T-STORE(fee)) key family <-> context accessor pairing. "
+             "Not decided: the fixpoint over all programs.")
+def c09(ctx, rep):
+    cmptables.rule_fee_tables(ctx, rep)
+    cmptables.rule_fee_lattice(ctx, rep)
+    cmptables.rule_fee_store(ctx, rep)
